@@ -2,8 +2,9 @@
     Model: Store/Npy.v (NpyArray / ArrayStore / NpyStore over a buffered file; the oracle [o]
     decides at every seek and write how many pending writes reach the OS file).
     This file only states the property theorems; proofs are in Proofs/C06_Npy.v.
-    [wf bs ops]: every batch written has [bs] rows of the store's row shape, and [Close] is not
-    used in the middle of a history ([Reopen] = close + open).                                 *)
+    [wf bs ops]: every batch written has [bs] rows of the store's row shape, [Close] is not
+    used in the middle of a history ([Reopen] = close + open), and no [Open k] (a store exposing a
+    prefix of the file: theorems (5), (6) with [wfp]).                                          *)
 From Coq Require Import List NArith Arith Bool.
 From Elfi Require Import Store.Npy Proofs.C06_Npy.
 Import ListNotations.
@@ -57,6 +58,48 @@ Theorem C06_crash_safe : forall bs o pre fl mid op j,
     = Some (flat (spec (pre ++ fl :: firstn t (mid ++ [op])))).
 Proof. exact crash_safe. Qed.
 Print Assumptions C06_crash_safe.
+
+(** (5) Prefix stores.  [Open k] = [NpyStore(filename, batch_size, n_batches=k)] over the existing
+    file: a store whose [n_batches] may be smaller than the number of batches in the file (the same
+    state arises by unpickling a pickle taken before the original object appended more).  The
+    specification state is the pair (batches physically in the file, n_batches) ([pspec]);
+    [wfp] = batches of [bs] rows, no standalone [Close], and [k] at most the number of batches in
+    the file.  After any such history, whatever the buffering, [len(store)] and every [store[i]] are
+    those of the first [n_batches] batches of the specification state. *)
+Theorem C06_prefix_refinement : forall bs o ops, 0 < bs -> wfp bs ([], 0) ops ->
+  forall m f i, start current bs o ops = (m, f, i) ->
+    view bs m f = (snd (pspec ops), Some (visible (pspec ops))).
+Proof. exact prefix_refinement. Qed.
+Print Assumptions C06_prefix_refinement.
+
+(** ... and the visible batches evolve as the plain in-memory list of batches under every operation
+    other than [Reopen]/[Open]: a write at index [n_batches] of a prefix store is an append to the
+    list (it replaces the hidden batch at rows [n_batches*bs, (n_batches+1)*bs) of the file rather
+    than going to the end of the file), delete-last removes the last element, the rest stays. *)
+Theorem C06_prefix_visible : forall s op, snd s <= length (fst s) -> is_open op = false -> op <> Reopen ->
+  visible (pspec_step s op) = spec_step (visible s) op.
+Proof. exact visible_step. Qed.
+Print Assumptions C06_prefix_visible.
+
+(** (6) The two together, in terms of the in-memory list only: [pre] any well-formed history, then a
+    store over the file exposing its first [k] batches, then any operations [post] on that store
+    (writes at index [n_batches], overwrites, delete-last, clear, flush, pickle+unpickle, reads):
+    the store reports exactly the list [firstn k (spec pre)] evolved by [post]. *)
+Theorem C06_prefix_store_refines_list : forall bs o pre k post,
+  0 < bs -> wf bs pre -> k <= length (spec pre) ->
+  Forall (fun op => wf_op bs op /\ op <> Reopen) post ->
+  forall m f i, start current bs o (pre ++ Open k :: post) = (m, f, i) ->
+  view bs m f = (length (fold_left spec_step post (firstn k (spec pre))),
+                 Some (fold_left spec_step post (firstn k (spec pre)))).
+Proof. exact prefix_store_refines_list. Qed.
+Print Assumptions C06_prefix_store_refines_list.
+
+(** without [Open] the pair specification is the list specification with nothing hidden, so (5)
+    contains (1) *)
+Theorem C06_pspec_no_open : forall ops L, has_open ops = false ->
+  fold_left pspec_step ops (L, length L) = (fold_left spec_step ops L, length (fold_left spec_step ops L)).
+Proof. exact pspec_no_open. Qed.
+Print Assumptions C06_pspec_no_open.
 
 (** The decidable crash clause evaluated on the implementation's observations is sound: when it
     holds, the observed file content is the content after one of the operations [f..t]. *)
@@ -121,4 +164,32 @@ Proof. vm_compute. reflexivity. Qed.
 Example C06_example_old_truncate :
   map (fun j => loads (crash_disk old_truncate 2 (fun _ => 0) (ex_pre ++ Flush :: ex_mid) (Del 2) j)) (seq 0 3)
   = [ Some [[7];[8];[3];[4];[5];[6]]; Some [[7];[8];[3];[4];[5];[6]]; None ]%N.
+Proof. vm_compute. reflexivity. Qed.
+
+(** Non-vacuity of (5)/(6): three batches written, a store opened over the first one, a write at
+    index n_batches = 1, an append-looking write at 2, an overwrite, a delete-last (which cuts the
+    file after the visible batches) and a real append.  The hypotheses hold, and the model run
+    shows the write landing at rows [2,4) of the file with the third batch still behind it. *)
+Definition ex_three := [Set_ 0 true [[1%N];[2%N]]; Set_ 1 true [[3%N];[4%N]]; Set_ 2 true [[5%N];[6%N]]].
+Definition ex_post := [Set_ 1 true [[7%N];[8%N]]; Flush; Set_ 0 true [[9%N];[10%N]]; Set_ 2 true [[11%N];[12%N]];
+                       Del 2; Del 1; Set_ 1 true [[13%N];[14%N]]].
+
+Example C06_example_prefix_hyps :
+  wf 2 ex_three /\ 1 <= length (spec ex_three) /\ Forall (fun op => wf_op 2 op /\ op <> Reopen) ex_post /\
+  wfp 2 ([], 0) (ex_three ++ Open 1 :: ex_post).
+Proof.
+  split; [repeat constructor|]. split; [vm_compute; repeat constructor|].
+  split; [repeat constructor; discriminate|]. vm_compute. repeat split; repeat constructor.
+Qed.
+
+Example C06_example_prefix_write :
+  (let '(m, f, _) := start current 2 (fun _ => 0) (ex_three ++ [Open 1; Set_ 1 true [[7%N];[8%N]]; Flush]) in
+   (view 2 m f, loads (f_disk f)))
+  = ((2, Some [[[1];[2]]; [[7];[8]]]%N), Some [[1];[2];[7];[8];[5];[6]]%N).
+Proof. vm_compute. reflexivity. Qed.
+
+Example C06_example_prefix_history :
+  (let '(m, f, _) := start current 2 (fun _ => 0) (ex_three ++ Open 1 :: ex_post ++ [Flush]) in
+   (view 2 m f, loads (f_disk f)))
+  = ((2, Some [[[9];[10]]; [[13];[14]]]%N), Some [[9];[10];[13];[14]]%N).
 Proof. vm_compute. reflexivity. Qed.
